@@ -219,6 +219,24 @@ CHECKS = {
                 "Gaussian-elimination claim is bounded by the entry box.",
         "technique": SOLVER_TECH + "; symbolic divisors realised by value-forking",
     },
+    "C16": {
+        "level": "model_checking",
+        "text": "Bounded model checking of the matcher's answers: 24 patterns (sums, products, quotients, powers, calls, "
+                "subscripts, comparisons, conditionals, repeated variables) against targets built as instances (6 substitutions, "
+                "operand orders as built / reversed / flattened with extra operands) and independently (instances of other "
+                "patterns), for the full and the minimal candidate set. For every record the real UnidirectionalUnifier returns: "
+                "only candidates are bound; the instantiated pattern and the target are evaluated by the real evaluator on z3 "
+                "proxies (atoms unbounded symbolic integers, called functions / subscripted arrays uninterpreted) and z3 proves "
+                "the values equal for all atom values and all interpretations - a necessary condition of equality modulo AC; the "
+                "AC-canonical forms must coincide (this is also the replay criterion); injective renamings must yield a record. "
+                "The matchpy bridge: From(To(e)) on 47 expressions; match / match_anywhere / replace_all with dot and star "
+                "wildcards under the same instantiation law (multiset multiplicities via a value query with R := x*z).",
+        "design_ref": "DESIGN.md §4 C16",
+        "note": "Structure is enumerated, not symbolic: the quantifier over (pattern, target) pairs is bounded-exhaustive "
+                "over the listed families only. matchpy's own algorithms are exercised, not encoded. Trusted: the harness's "
+                "substitution and AC-canonical form, evaluator (C02), z3.",
+        "technique": SOLVER_TECH + "; value-equality under uninterpreted functions as the solver-side necessary condition, AC-canonical comparison on replay",
+    },
     "C18": {
         "level": "model_checking",
         "text": "Bounded symbolic model checking: blade bitmaps are enumerated (all pairs and triples of basis blades in "
